@@ -6,10 +6,42 @@ from . import rfc
 ASSUME = ["String::from_utf8 / to_lowercase / parse::<usize> / to_string are modelled (validUtf8, lowerName, parseUsize, toDec) and tied by differential execution only"]
 
 
+_SRC_LITERALS = None
+
+
+def source_literals():
+    """every plain string literal of /repo/src/*.rs (as it stands on this run): texts the code itself treats specially - placeholders,
+    option names, mode names, messages - are the values most likely to be special-cased, so they are used as field values too"""
+    global _SRC_LITERALS
+    if _SRC_LITERALS is None:
+        import glob, os, re
+        from . import core
+        lits = set()
+        for f in sorted(glob.glob(os.path.join(core.REPO, "src", "*.rs"))):
+            try:
+                text = open(f, errors="replace").read()
+            except OSError:
+                continue
+            for m in re.finditer(r'"([^"\\\n]{1,48})"', text):
+                lits.add(m.group(1))
+        _SRC_LITERALS = sorted(lits) or ["octet"]
+    return _SRC_LITERALS
+
+
 def rand_string(rng, maxlen=24):
     r = rng.random()
     if r < 0.1:
         return b""
+    if r < 0.2:
+        lit = rng.choice(source_literals())
+        v = rng.random()
+        if v < 0.7:
+            return lit.encode()
+        if v < 0.8:
+            return (lit + " ").encode()
+        if v < 0.9:
+            return lit[:-1].encode()
+        return lit.swapcase().encode()
     if r < 0.6:
         n = rng.randint(1, maxlen)
         return bytes(rng.choice(b"abcdefghijklmnopqrstuvwxyzABCDEFXYZ0123456789._-/\\ +") for _ in range(n))
@@ -98,6 +130,12 @@ class C11(Prop):
                     for p in (("oack", [(name, v)]), ("rrq", b"f", b"octet", [(name, v)]), ("wrq", b"f", b"octet", [("blksize", 512), (name, v)])):
                         lines.append("enc " + rfc.canon(p))
                         lines.append("dec " + rfc.hx(rfc.encode(p)))
+        # directed: every string literal of the source (placeholders, option and mode names, messages) as the text of every string field
+        for lit in source_literals():
+            b = lit.encode()
+            for p in (("error", rng.randint(0, 7), b), ("rrq", b, b"octet", []), ("wrq", b"f", b, [("blksize", 512)])):
+                lines.append("enc " + rfc.canon(p))
+                lines.append("dec " + rfc.hx(rfc.encode(p)))
         return lines
 
     def oracle(self, line, impl):
@@ -246,6 +284,17 @@ class C10(Prop):
         for _ in range(300 if tier == "quick" else 3000):
             n = rng.choice([rng.randint(0, 64), rng.randint(0, 2000)] + ([rng.randint(2000, 65507)] if tier == "thorough" else []))
             add(rng.choice([b"", b"\0\1", b"\0\3", b"\0\5", b"\0\6"]) + bytes(rng.getrandbits(8) for _ in range(n)))
+        # directed: byte strings longer than any UDP datagram ("of any length": Packet::deserialize is public) - field boundaries and
+        # terminators at offsets around and beyond 2^16, well-formed and cut short
+        for total in [65534, 65535, 65536, 65537, 65538, 65600, 70000] + ([131071, 131073, 200000] if tier == "thorough" else [131073]):
+            k = total - 9
+            add(b"\0\1" + b"a" * k + b"\0octet\0")
+            add(b"\0\2" + b"a" * k + b"\0octet")                  # terminator missing at the very end
+            add(b"\0\1f\0octet\0" + b"x" * (total - 12) + b"\0" + b"1\0")
+            add(b"\0\5\0\1" + b"m" * (total - 5) + b"\0")
+            add(b"\0\6" + b"blksize\x00512\x00" * ((total - 2) // 12) + b"tsize\0" + b"7\0")
+            add(b"\0\2f\0octet\0" + b"windowsize\0004\0" * ((total - 10) // 15) + b"timeout\0" + b"9")
+            add(b"\0\3\0\1" + bytes((i * 5) & 255 for i in range(total - 4)))
         # directed: long, valid, non-ASCII UTF-8 strings in every string field (ERROR message, file name, mode, option name/value), with a
         # 2-, 3- or 4-byte character straddling every offset around the lengths at which an implementation might cut or bound a string
         limits = [8, 16, 32, 64, 80, 100, 127, 128, 200, 255, 256, 400, 500, 508, 512] + ([1000, 1024, 2048, 4096] if tier == "thorough" else [])
